@@ -184,6 +184,13 @@ Proof.
   destruct (api_frame f_key f_tosize f_div f_is_zero f None s) as [[] s1| |]; [apply IH|reflexivity|reflexivity].
 Qed.
 
+Lemma run_ops_app_intro : forall a b s s1 s', run_ops f_key f_tosize f_div f_is_zero a s = ROk tt s1 ->
+  run_ops f_key f_tosize f_div f_is_zero b s1 = ROk tt s' -> run_ops f_key f_tosize f_div f_is_zero (a ++ b) s = ROk tt s'.
+Proof.
+  induction a as [|o a IH]; intros b s s1 s' H1 H2; cbn [app run_ops] in *; [injection H1 as <-; exact H2|].
+  destruct (step f_key f_tosize f_div f_is_zero s o) as [[] sx| |]; try discriminate. exact (IH b sx s1 s' H1 H2).
+Qed.
+
 (* THE WHOLE SESSION from the constructor: declare the points, declare the channels, set POINT:RATE, set ANALOG:RATE, record.
    For every list of point names, every non-empty list of channel names, every pair of rates whose truncated ratio q is at
    least 1, and every list of frames that carry the declared names in order with q sub-frames each: if the calls return
@@ -198,7 +205,8 @@ Theorem declarations_then_rates_then_recording : forall ps cs pr ar prate arate 
   nlen fs < 2147483647 ->
   run_ops f_key f_tosize f_div f_is_zero
     (map OPoint ps ++ map OAnalog cs ++ [OParam nm_POINT pr; OParam nm_ANALOG ar] ++ map (fun f => OFrame f None) fs) init = ROk tt s' ->
-  Inv s' /\ frames s' = fs.
+  Inv s' /\ frames s' = fs /\
+  (exists s3, run_ops f_key f_tosize f_div f_is_zero (map OPoint ps ++ map OAnalog cs ++ [OParam nm_POINT pr]) init = ROk tt s3 /\ Inv s3).
 Proof.
   intros ps cs pr ar prate arate tp ta q fs s' Hcs SP SA Np Kp Vp Zp Na Ka Va Q0 Q1 Q1' QB An SF H.
   rewrite app_assoc in H. destruct (run_ops_app _ _ _ _ _ _ _ _ H) as [s2 [H12 H2]].
@@ -276,9 +284,12 @@ Proof.
   { rewrite (lk_strs_ext (groups s3) (groups s4) _ _ (LO4 _ _ (or_intror N2))), (lk_strs_ext (groups s2) (groups s3) _ _ (LO3 _ _ (or_intror N2))). exact LA2. }
   (* --- the recording --- *)
   rewrite run_ops_frames in H2.
+  assert (XS3 : exists s3', run_ops f_key f_tosize f_div f_is_zero (map OPoint ps ++ map OAnalog cs ++ [OParam nm_POINT pr]) init = ROk tt s3' /\ Inv s3').
+  { exists s3. split; [|exact I3]. rewrite app_assoc. apply run_ops_app_intro with (s1 := s2); [exact H12|]. cbn [run_ops step]. rewrite E3. reflexivity. }
   destruct fs as [|f t].
   - cbn [run_frames] in H2. injection H2 as <-. auto.
-  - assert (AN : Forall (announced s4) (f :: t)).
+  - cut (Inv s' /\ frames s' = f :: t); [intros [A B]; auto|].
+    assert (AN : Forall (announced s4) (f :: t)).
     { apply Forall_forall. intros g Hg. rewrite Forall_forall in An. destruct (An g Hg) as [A1 [A2 A3]]. split; [|split].
       - rewrite LP4, A1. reflexivity.
       - rewrite B4. exact A2.
@@ -291,5 +302,69 @@ Proof.
     + unfold nlen in *. cbn [length] in SF. lia.
     + rewrite Ena. exact SA.
     + rewrite B4, Ena. exact QB.
+Qed.
+Corollary session_end : forall ps cs pr ar prate arate tp ta q fs s',
+  cs <> [] -> nlen ps < 2147483648 -> nlen cs < 2147483648 ->
+  p_name pr = nm_RATE -> kind_ok KFlt1 pr = true -> values_as_float pr = Ok (prate :: tp) -> f32_is_zero prate = false ->
+  p_name ar = nm_RATE -> kind_ok KFlt1 ar = true -> values_as_float ar = Ok (arate :: ta) ->
+  f_tosize (f_div 0 prate) = Ok 0 -> f_tosize (f_div arate prate) = Ok q -> 1 <= q -> nlen cs * q < two64 ->
+  Forall (fun f => map pt_name (fr_pts f) = map rtrim ps /\ nlen (fr_subs f) = q /\
+                   (forall sf, In sf (fr_subs f) -> map ch_name sf = map rtrim cs)) fs ->
+  nlen fs < 2147483647 ->
+  run_ops f_key f_tosize f_div f_is_zero
+    (map OPoint ps ++ map OAnalog cs ++ [OParam nm_POINT pr; OParam nm_ANALOG ar] ++ map (fun f => OFrame f None) fs) init = ROk tt s' ->
+  Inv s' /\ frames s' = fs.
+Proof.
+  intros ps cs pr ar prate arate tp ta q fs s' H1 H2 H3 H4 H5 H6 H7 H8 H9 H10 H11 H12 H13 H14 H15 H16 H.
+  destruct (declarations_then_rates_then_recording ps cs pr ar prate arate tp ta q fs s' H1 H2 H3 H4 H5 H6 H7 H8 H9 H10 H11 H12 H13 H14 H15 H16 H) as (A & B & _). auto.
+Qed.
+
+(* ... AT EVERY INTERMEDIATE STATE, not only at the end: whatever prefix of the session has been carried out — some of the
+   declarations, all of them, the first rate, both rates, some of the frames — header, parameters and stored data agree *)
+Theorem session_every_intermediate_state : forall ps cs pr ar prate arate tp ta q fs s' pre post sk,
+  cs <> [] -> nlen ps < 2147483648 -> nlen cs < 2147483648 ->
+  p_name pr = nm_RATE -> kind_ok KFlt1 pr = true -> values_as_float pr = Ok (prate :: tp) -> f32_is_zero prate = false ->
+  p_name ar = nm_RATE -> kind_ok KFlt1 ar = true -> values_as_float ar = Ok (arate :: ta) ->
+  f_tosize (f_div 0 prate) = Ok 0 -> f_tosize (f_div arate prate) = Ok q -> 1 <= q -> nlen cs * q < two64 ->
+  Forall (fun f => map pt_name (fr_pts f) = map rtrim ps /\ nlen (fr_subs f) = q /\
+                   (forall sf, In sf (fr_subs f) -> map ch_name sf = map rtrim cs)) fs ->
+  nlen fs < 2147483647 ->
+  run_ops f_key f_tosize f_div f_is_zero
+    (map OPoint ps ++ map OAnalog cs ++ [OParam nm_POINT pr; OParam nm_ANALOG ar] ++ map (fun f => OFrame f None) fs) init = ROk tt s' ->
+  map OPoint ps ++ map OAnalog cs ++ [OParam nm_POINT pr; OParam nm_ANALOG ar] ++ map (fun f => OFrame f None) fs = pre ++ post ->
+  run_ops f_key f_tosize f_div f_is_zero pre init = ROk tt sk ->
+  Inv sk.
+Proof.
+  intros ps cs pr ar prate arate tp ta q fs s' pre post sk Hcs SP SA Np Kp Vp Zp Na Ka Va Q0 Q1 Q1' QB An SF Hfull Esplit Hpre.
+  destruct (app_eq_app _ _ _ _ Esplit) as [l [[EA _]|[Epre EX]]].
+  - (* within the point declarations *)
+    destruct (map_eq_app _ _ _ _ EA) as (ps1 & ps2 & Eps & M1 & _). subst pre.
+    assert (H1 : run_ops f_key f_tosize f_div f_is_zero (map OPoint ps1 ++ map OAnalog []) init = ROk tt sk) by (cbn [map]; rewrite app_nil_r; exact Hpre).
+    destruct (declarations_from_init f_key f_tosize f_div f_is_zero f_key_nt f_tosize_nt ps1 [] sk) as [D _]; try exact H1.
+    + rewrite Eps in SP. unfold nlen in *. rewrite app_length in SP. lia.
+    + unfold nlen. cbn [length]. lia.
+    + apply D.
+  - destruct (app_eq_app _ _ _ _ EX) as [l2 [[EB _]|[El ER]]].
+    + (* within the channel declarations *)
+      destruct (map_eq_app _ _ _ _ EB) as (cs1 & cs2 & Ecs & M1 & _). subst pre l.
+      destruct (declarations_from_init f_key f_tosize f_div f_is_zero f_key_nt f_tosize_nt ps cs1 sk) as [D _]; try exact Hpre; try exact SP.
+      * rewrite Ecs in SA. unfold nlen in *. rewrite app_length in SA. lia.
+      * apply D.
+    + subst l. destruct l2 as [|x l2'].
+      * (* all the declarations *)
+        rewrite app_nil_r in Epre. subst pre.
+        destruct (declarations_from_init f_key f_tosize f_div f_is_zero f_key_nt f_tosize_nt ps cs sk) as [D _]; try assumption. apply D.
+      * cbn [app] in ER. injection ER as Ex ER. subst x. destruct l2' as [|y l2''].
+        -- (* the point rate has been set *)
+           destruct (declarations_then_rates_then_recording ps cs pr ar prate arate tp ta q fs s') as (_ & _ & (s3 & R3 & I3)); try assumption.
+           subst pre. rewrite R3 in Hpre. injection Hpre as <-. exact I3.
+        -- cbn [app] in ER. injection ER as Ey ER. subst y.
+           (* both rates set, some of the frames recorded *)
+           destruct (map_eq_app _ _ _ _ ER) as (fs1 & fs2 & Efs & M1 & _). subst pre. rewrite <- M1 in Hpre.
+           assert (An1 : Forall (fun f => map pt_name (fr_pts f) = map rtrim ps /\ nlen (fr_subs f) = q /\
+                                          (forall sf, In sf (fr_subs f) -> map ch_name sf = map rtrim cs)) fs1).
+           { rewrite Efs in An. apply Forall_app in An. apply An. }
+           assert (SF1 : nlen fs1 < 2147483647) by (rewrite Efs in SF; unfold nlen in *; rewrite app_length in SF; lia).
+           destruct (declarations_then_rates_then_recording ps cs pr ar prate arate tp ta q fs1 sk) as (I & _ & _); assumption.
 Qed.
 End WithOps.
